@@ -35,9 +35,9 @@ const (
 )
 
 type c18Event struct {
-	kind  byte   // S submit, R receive, U up, D down, T tick, X restart, O two overlapping retry ticks
-	k     int    // R: BinarySprayBlock value, -1 = no block
-	prev  int    // R: previous node (peer id), -1 = no PreviousNodeBlock
+	kind  byte   // S submit, R receive, U up, D down, T tick, X restart, O two overlapping retry ticks, L loop-back
+	k     int    // R, L: BinarySprayBlock value, -1 = no block
+	prev  int    // R, L: previous node (peer id), -1 = no PreviousNodeBlock
 	peer  int    // U, D
 	fails []int  // peers whose Send fails during this event
 	sched string // "" or a word over {a,b}: forced order of the two failure reports' read / write-back steps
@@ -84,7 +84,7 @@ func (e c18Event) input() string {
 	switch e.kind {
 	case 'S', 'T', 'X', 'O':
 		ev = string(e.kind)
-	case 'R':
+	case 'R', 'L':
 		k, p := "-", "-"
 		if e.k >= 0 {
 			k = strconv.Itoa(e.k)
@@ -92,7 +92,7 @@ func (e c18Event) input() string {
 		if e.prev >= 0 {
 			p = strconv.Itoa(e.prev)
 		}
-		ev = "R:" + k + ":" + p
+		ev = string(e.kind) + ":" + k + ":" + p
 	case 'U', 'D':
 		ev = fmt.Sprintf("%c:%d", e.kind, e.peer)
 	}
@@ -348,6 +348,46 @@ func (ctl *c18Ctl) run(names []string, word string) {
 	}
 }
 
+// c18Loopback: the bundle that is in the store is received AGAIN — the node's own bundle looped back
+// by a peer, or a relayed bundle arriving from a second peer — through the calls Core.handler makes
+// for a ReceivedBundle message. The duplicate is the stored bundle with a PreviousNodeBlock of the
+// sending peer and, if e.k >= 0, a BinarySprayBlock announcing e.k copies. Nothing happens if the
+// bundle is not in the store (any more): then the reception would be a new entry, not a loop-back.
+func c18Loopback(w *c18World, e c18Event) string {
+	bis, err := w.c.store.QueryPending()
+	if err != nil || len(bis) == 0 {
+		return ""
+	}
+	stored, err := bis[0].Parts[0].Load()
+	if err != nil {
+		return "loaderr " + err.Error()
+	}
+	// a private copy: re-parse the serialised form
+	dup, err := bpv7.ParseBundle(bytes.NewReader(verifBundleBytes(stored)))
+	if err != nil {
+		return "parseerr " + err.Error()
+	}
+	if e.prev >= 0 {
+		if pn, err := dup.ExtensionBlock(bpv7.ExtBlockTypePreviousNodeBlock); err == nil {
+			pn.Value = bpv7.NewPreviousNodeBlock(c18PeerEid(e.prev))
+		} else {
+			dup.AddExtensionBlock(bpv7.NewCanonicalBlock(0, 0, bpv7.NewPreviousNodeBlock(c18PeerEid(e.prev))))
+		}
+	}
+	if e.k >= 0 {
+		if sb, err := dup.ExtensionBlock(bpv7.ExtBlockTypeBinarySprayBlock); err == nil {
+			sb.Value.(*bpv7.BinarySprayBlock).SetCopies(uint64(e.k))
+		} else {
+			dup.AddExtensionBlock(bpv7.NewCanonicalBlock(0, 0, bpv7.NewBinarySprayBlock(uint64(e.k))))
+		}
+	}
+	if dup.ID() != stored.ID() {
+		return "loopback-id-differs"
+	}
+	verifReceive(w.c, dup, bpv7.DtnNone())
+	return ""
+}
+
 // c18Overlap runs two retry ticks for the pending bundle at once, the way the cron job and a
 // PeerAppeared message do in a running daemon: the first run is parked right after SenderForBundle has
 // read the bundle's metadata, the second one starts. If the second one gets to read the metadata too
@@ -523,6 +563,10 @@ func c18Run(w *c18World, h c18Hist) string {
 				up[e.peer] = false
 			case 'T':
 				w.c.checkPendingBundles()
+			case 'L':
+				if r := c18Loopback(w, e); r != "" {
+					return r
+				}
 			case 'O':
 				if r := c18Overlap(w); r != "" {
 					return r
@@ -647,6 +691,12 @@ func c18Exhaustive(alg string, l, n, depth int, entries []c18Event, withRestart 
 				rec(append(evs, c18Event{kind: 'T', fails: fs}), up, d-1)
 			}
 		}
+		// the bundle comes back from peer 1 (binary spray: announcing 3 copies)
+		lk := -1
+		if alg == "binary" {
+			lk = 3
+		}
+		rec(append(evs, c18Event{kind: 'L', k: lk, prev: 1}), up, d-1)
 		if withRestart && d >= 2 {
 			rec(append(evs, c18Event{kind: 'X'}), make([]bool, n), d-1)
 		}
@@ -717,6 +767,15 @@ func c18Random(r *verifRng, alg string, l int) c18Hist {
 				up[i] = true
 				h.evs = append(h.evs, c18Event{kind: 'U', peer: i, fails: randFails()})
 			}
+		case x == 4:
+			e := c18Event{kind: 'L', k: -1, prev: -1}
+			if n > 1 {
+				e.prev = 1 + r.intn(n-1)
+			}
+			if alg == "binary" && r.intn(4) != 0 {
+				e.k = r.intn(10)
+			}
+			h.evs = append(h.evs, e)
 		case x < 9:
 			h.evs = append(h.evs, c18Event{kind: 'T', fails: randFails()})
 		default:
@@ -763,6 +822,22 @@ func c18Directed(alg string, l int, emit func(c18Hist)) {
 		c18Event{kind: 'T', fails: []int{2, 4, 6}}, c18Event{kind: 'T', fails: []int{1}}, c18Event{kind: 'T'}, c18Event{kind: 'T'},
 		c18Event{kind: 'T'})
 	emit(h)
+	// the node's own bundle loops back after one / two peers were served, retries and new peers follow
+	lk := -1
+	if alg == "binary" {
+		lk = 2 * l
+	}
+	emit(c18Hist{alg: alg, l: l, n: 6, evs: []c18Event{{kind: 'S'}, {kind: 'U', peer: 1}, {kind: 'L', k: lk, prev: 1},
+		{kind: 'T'}, {kind: 'U', peer: 2}, {kind: 'L', k: lk, prev: 2}, {kind: 'T'}, {kind: 'U', peer: 3}, {kind: 'U', peer: 4},
+		{kind: 'L', k: -1, prev: -1}, {kind: 'T'}, {kind: 'U', peer: 5}}})
+	// a relayed bundle arrives a second time, from another peer, announcing more copies
+	rk := -1
+	if alg == "binary" {
+		rk = l + 1
+	}
+	emit(c18Hist{alg: alg, l: l, n: 5, evs: []c18Event{{kind: 'R', k: rk, prev: 1}, {kind: 'U', peer: 2, fails: []int{2}},
+		{kind: 'L', k: lk, prev: 3}, {kind: 'T'}, {kind: 'U', peer: 3}, {kind: 'L', k: lk, prev: 2}, {kind: 'T'},
+		{kind: 'U', peer: 4}, {kind: 'U', peer: 0}}})
 	// a relay: received from peer 1 (copies as announced), foreign peers around, failures, restart
 	for i, k := range []int{2*l + 1, 1, 2, l} {
 		kk := k
@@ -873,7 +948,7 @@ func c18ParseLine(line string) (c18Hist, error) {
 		ev := strings.Split(p[0], ":")
 		e.kind = ev[0][0]
 		switch e.kind {
-		case 'R':
+		case 'R', 'L':
 			if len(ev) == 3 {
 				if ev[1] != "-" {
 					e.k, _ = strconv.Atoi(ev[1])
